@@ -1017,6 +1017,21 @@ impl Prioritize {
                             }))
                         }
                         Some(Frame::PushPromise(pp)) => {
+                            // The promised stream may be gone already: a GOAWAY
+                            // from the peer fails (and releases) reserved
+                            // streams above its last-stream-id while their
+                            // PUSH_PROMISE is still queued here. The promise is
+                            // moot then; drop it instead of unwrapping `None`.
+                            if stream.store_mut().find_mut(&pp.promised_id()).is_none() {
+                                if !stream.pending_send.is_empty()
+                                    || stream.state.is_scheduled_reset()
+                                {
+                                    self.pending_send.push(&mut stream);
+                                }
+                                counts.transition_after(stream, is_pending_reset);
+                                continue;
+                            }
+
                             let mut pushed =
                                 stream.store_mut().find_mut(&pp.promised_id()).unwrap();
                             pushed.is_pending_push = false;
